@@ -33,6 +33,12 @@ def suites():
     return {
         "x_struct4": (variant("struct4s", "x_struct4"), 90, 1500),
         "x_peraxis": (variant("struct3p", "x_peraxis"), 60, 600),
+        # node ids start at 0 (tracks constructed from a relabelled copy of the graph)
+        "x_struct0": (variant("struct4s", "x_struct0", rebuild={"shift": 0, "nshift": 1}), 75, 1500),
+        # a registered static node feature that only some nodes carry
+        "x_structc": (variant("struct3c", "x_structc"), 80, 436),
+        # tracks CONSTRUCTED from a graph that already carries ids (0-based), as after load / import
+        "x_structz": (variant("struct3z", "x_structz"), 60, 600),
         "x_seg13": (variant("seg13", "x_seg13"), 90, 1500),
         # abstract columns 0,1,2 at real columns 0,63,64 of a 70-wide array: straddles the exporter's 64-voxel chunks
         "x_seg13e": (variant("seg13", "x_seg13e", embed=[70, [0, 63, 64]]), 90, 1500),
@@ -41,9 +47,9 @@ def suites():
     }
 
 
-PLAN = {"C14": ["x_struct4", "x_peraxis", "x_seg13", "x_seg13n", "x_seg3d"],
-        "C15": ["x_struct4", "x_seg13e", "x_seg3d"],
-        "C16": ["x_struct4", "x_peraxis", "x_seg13e", "x_seg13n", "x_seg3d"]}
+PLAN = {"C14": ["x_struct4", "x_struct0", "x_structc", "x_peraxis", "x_seg13", "x_seg13n", "x_seg3d"],
+        "C15": ["x_struct4", "x_struct0", "x_seg13e", "x_seg3d"],
+        "C16": ["x_struct4", "x_struct0", "x_peraxis", "x_structz", "x_seg13e", "x_seg13n", "x_seg3d"]}
 
 RULE = {"C14": "one record per (catalogue state, format in csv/geff/internal); non-trivial = state with at least one edge",
         "C15": "one record per (catalogue state, EVERY subset of its nodes, format in csv/geff); non-trivial = selection whose ancestor closure adds nodes",
